@@ -1334,6 +1334,14 @@ void SPxSolverBase<R>::setType(Type tp)
 
          SPxBasisBase<R>::theLP = this;
 
+         // the basis matrix is an array of pointers to vectors of the LP: the copied pointers address the vectors of base,
+         // let them address the vectors of this object (same contents, so the copied factorization stays valid)
+         if(this->matrixIsSetup)
+         {
+            for(int i = 0; i < this->matrix.size(); ++i)
+               this->matrix[i] = &vector(this->baseId(i));
+         }
+
          assert(!freePricer || thepricer != nullptr);
          assert(!freeRatioTester || theratiotester != nullptr);
          assert(!freeStarter || thestarter != nullptr);
@@ -1547,6 +1555,14 @@ void SPxSolverBase<R>::setType(Type tp)
       }
 
       SPxBasisBase<R>::theLP = this;
+
+      // the basis matrix is an array of pointers to vectors of the LP: the copied pointers address the vectors of base,
+      // let them address the vectors of this object (same contents, so the copied factorization stays valid)
+      if(this->matrixIsSetup)
+      {
+         for(int i = 0; i < this->matrix.size(); ++i)
+            this->matrix[i] = &vector(this->baseId(i));
+      }
 
       if(base.thepricer == nullptr)
       {
